@@ -242,6 +242,18 @@ where
         bit_read: &mut R,
         mut n: u64,
     ) -> Result<(), CopyError<R::Error, Self::Error>> {
+        // Words wider than 64 bits cannot be filled by single fixed-width
+        // reads: use the generic chunked copy
+        if WW::Word::BITS > 64 {
+            while n > 0 {
+                let to_read = core::cmp::min(n, 64) as usize;
+                let read = bit_read.read_bits(to_read).map_err(CopyError::ReadError)?;
+                self.write_bits(read, to_read)
+                    .map_err(CopyError::WriteError)?;
+                n -= to_read as u64;
+            }
+            return Ok(());
+        }
         if n < self.space_left_in_buffer as u64 {
             self.buffer = (self.buffer << n)
                 | bit_read
@@ -412,6 +424,18 @@ where
         bit_read: &mut R,
         mut n: u64,
     ) -> Result<(), CopyError<R::Error, Self::Error>> {
+        // Words wider than 64 bits cannot be filled by single fixed-width
+        // reads: use the generic chunked copy
+        if WW::Word::BITS > 64 {
+            while n > 0 {
+                let to_read = core::cmp::min(n, 64) as usize;
+                let read = bit_read.read_bits(to_read).map_err(CopyError::ReadError)?;
+                self.write_bits(read, to_read)
+                    .map_err(CopyError::WriteError)?;
+                n -= to_read as u64;
+            }
+            return Ok(());
+        }
         if n < self.space_left_in_buffer as u64 {
             self.buffer = (self.buffer >> n)
                 | (bit_read
